@@ -7,7 +7,7 @@
 Require Import ZArith List String Bool Reals.
 Import ListNotations.
 From GLMV Require Import Expr SemR Cat Comm Chk SpecLinAlg SpecProj.
-From W Require Gen_C08 Gen_C08_LHNO Gen_C08_RHZO Gen_C08_LHZO A_C08_defs P_C08_ortho_frustum P_C08_perspective P_C08_dispatch P_C08_project.
+From W Require Gen_C08 Gen_C08_LHNO Gen_C08_RHZO Gen_C08_LHZO A_C08_defs P_C08_ortho_frustum P_C08_perspective P_C08_dispatch P_C08_project P_C08_ivp.
 Import A_C08_defs.
 Local Open Scope string_scope.
 Definition cat := Gen_C08.catalogue.
@@ -48,6 +48,10 @@ Proof. exact P_C08_dispatch.config_independent. Qed.
 (* project sends clip coordinates to the viewport rectangle and the depth range of its convention *)
 Theorem C08_projectNO_viewport : P_C08_project.project_ok "projectNO_m1" NO. Proof. exact P_C08_project.projectNO_viewport. Qed.
 Theorem C08_projectZO_viewport : P_C08_project.project_ok "projectZO_m1" ZO. Proof. exact P_C08_project.projectZO_viewport. Qed.
+(* integer viewports: project / unProject / pickMatrix are the floating-viewport functions applied to static_cast<T> of each viewport component *)
+Theorem C08_integer_viewport_is_cast_componentwise :
+  forallb (P_C08_ivp.ivp_same 3) ["projectZO"; "projectNO"; "unProjectZO"; "unProjectNO"] && P_C08_ivp.ivp_same 2 "pickMatrix" = true.
+Proof. exact P_C08_ivp.integer_viewport. Qed.
 
 (* non-vacuity: the non-degeneracy hypotheses are satisfiable (l,r,b,t,n,f = 0,1,2,3,4,5) *)
 Example C08_hyps_satisfiable : let env : renv := fun _ _ i => IZR i in
